@@ -1,6 +1,7 @@
 """C01 — checking any text in any supported language never crashes or hangs."""
 import json
 import os
+import subprocess
 
 from . import common, corpus
 from .common import SPEC
@@ -104,6 +105,29 @@ def run(v):
                      "config, length, #lints, source) of non-empty texts / distinct (AST, token string)")
     v.assumptions += ["'low-degree polynomial time' is approximated by a 20 s watchdog on texts of at most "
                       "6000 characters; no asymptotic claim"]
+    # deep nesting: a stack that overflows aborts the process and cannot be observed from inside it, so these texts are
+    # checked in a process of their own each (unclosed markup nests one level per marker while it is typed or pasted)
+    deep = []
+    for reps in ((400, 1500) if not thorough else (400, 1500, 6000)):
+        deep += [("typst", "*a _b " * reps), ("typst", "#[" * reps), ("markdown", "*a _b " * reps), ("markdown", "> " * reps + "x"),
+                 ("markdown", "- " * reps + "x"), ("html", "<b><i>" * reps + "x"), ("plain", "((" * reps), ("rust", "/* " * reps + "\nfn main() {}\n")]
+    aborted = 0
+    for front, text in deep:
+        tf = os.path.join(wd, "deep.txt")
+        open(tf, "w").write(text)
+        try:
+            # (a 2 MiB stack, as the worker threads of the language server have)
+            p = subprocess.run(["bash", "-c", 'ulimit -s 2048; exec "$0" show alone --front "$1" --text "$(cat "$2")"', common.HV, front, tf],
+                               stdout=subprocess.DEVNULL, stderr=subprocess.PIPE, text=True, timeout=600)
+            rc, err = p.returncode, p.stderr
+        except subprocess.TimeoutExpired:
+            rc, err = -99, "timeout after 600 s"
+        v.cov["evaluations"] += 1
+        if rc != 0:
+            aborted += 1
+            v.failure({"kind": "process-aborted-or-hung", "front": front, "shape": text[:8], "overflow": "overflowed its stack" in err},
+                      {"front": front, "text_head": text[:60], "repetitions": len(text), "rc": rc, "stderr": err[-400:]})
+    v.cov["deep_nesting_texts"] = {"run": len(deep), "aborted": aborted}
     return v.finish()
 
 
